@@ -6,6 +6,7 @@ import (
 	"strings"
 
 	distiller "github.com/markusmobius/go-domdistiller"
+	"golang.org/x/net/html"
 )
 
 func init() { props["C16"] = runC16 }
@@ -21,6 +22,11 @@ func runC16(ctx *Ctx) {
 	pn := newCorr("pagenum")
 	pv := newCorr("prevnext")
 	run := func(c pagerCase) {
+		defer func() {
+			if r := recover(); r != nil {
+				rep.violate(map[string]string{"clause": "panic", "algo": "stage-hooks"}, fmt.Sprintf("a pagination stage panicked on page %s: %v", c.PageURL, r), c)
+			}
+		}()
 		rep.Evaluations++
 		page, err := nurl.ParseRequestURI(c.PageURL)
 		if err != nil {
@@ -35,7 +41,11 @@ func runC16(ctx *Ctx) {
 				name = "pagenumber"
 			}
 			d2 := parseDoc(c.HTML)
-			res, err := distiller.Apply(d2.Root, &distiller.Options{OriginalURL: page, PaginationAlgo: algo})
+			res, err, pmsg := applyRecover(d2.Root, &distiller.Options{OriginalURL: page, PaginationAlgo: algo})
+			if pmsg != "" {
+				rep.violate(map[string]string{"clause": "panic", "algo": name}, fmt.Sprintf("%s algorithm panicked on page %s: %s", name, c.PageURL, pmsg), c)
+				continue
+			}
 			if err != nil {
 				rep.hist("apply-error")
 				continue
@@ -90,6 +100,10 @@ func runC16(ctx *Ctx) {
 	n := ctx.pick(1500, 40000)
 	for i := 0; i < n; i++ {
 		r := newRng(ctx.Seed, fmt.Sprintf("C16/%d", i))
+		if r.Chance(4) {
+			run(casefoldPager(r))
+			continue
+		}
 		run(genPager(r, newPageGen(r)))
 	}
 	// ---- the groups of adjacent numbers as a state machine: random call sequences on the real
@@ -231,4 +245,15 @@ func c16Corpus() []pagerCase {
 		mk("http://example.com/a%20b/c?page=2", `<a href="/a%20b/c?page=1">1</a> 2 <a href="/a%20b/c?page=3">3</a>`),
 		mk("http://example.com/caf%C3%A9", `1 <a href="/caf%C3%A9?page=2">2</a> <a href="/caf%C3%A9?page=3">3</a>`),
 	}
+}
+
+// applyRecover: Apply, with a panic turned into a message (the finders are what is being tested)
+func applyRecover(root *html.Node, o *distiller.Options) (res *distiller.Result, err error, pmsg string) {
+	defer func() {
+		if r := recover(); r != nil {
+			pmsg = fmt.Sprint(r)
+		}
+	}()
+	res, err = distiller.Apply(root, o)
+	return
 }
